@@ -31,9 +31,17 @@ Forms == {<<Nf(10, f1), O(o), Nf(8, f2)>> : f1 \in {"dec", "hex", "oct", "chr"},
          \cup {<<Nf(v, f)>> : v \in {0, 7, 8, 9, 65, 255}, f \in {"hex", "oct"}} \cup {<<Nf(v, "chr")>> : v \in {48, 65, 97, 126, 10, 9, 0, 92, 39}}
 
 Exprs == Pair \cup ParL \cup ParR \cup Pre \cup Chain \cup Tern \cup Edge \cup Forms
-Positions == {"init", "arrsize", "arrelem", "aligned", "asmsize"}
+\* stmt8 / stmt16: the expression is the right-hand side of an assignment statement to an unsigned char / a short
+\* ("constant sub-expressions folded inside statements"): the stored value is the C value modulo 2^8 / 2^16
+Positions == {"init", "arrsize", "arrelem", "aligned", "asmsize", "stmt8", "stmt16"}
 VARIABLES e, pos
 Init == e \in Exprs /\ pos \in Positions
 Next == UNCHANGED <<e, pos>>
+\* objects declared by the driver's header for the sizeof cases: name -> [kind, elemBytes, n]
+SzObjects == [sc1 |-> <<"scalar", 1, 1>>, sh1 |-> <<"scalar", 2, 1>>, arr8 |-> <<"array", 1, 8>>, sarr4 |-> <<"array", 2, 4>>, ptr1 |-> <<"pointer", 2, 1>>,
+              ptab3 |-> <<"array", 2, 3>>, ctab5 |-> <<"array", 1, 5>>]
+EmitSizeof == /\ \A n \in DOMAIN SzObjects : PrintT("SIZEOF " \o ToJson([what |-> n, size |-> SizeOfObject(SzObjects[n][1], SzObjects[n][2], SzObjects[n][3])]))
+              /\ \A ty \in DOMAIN SizeOfType : PrintT("SIZEOF " \o ToJson([what |-> ty, size |-> SizeOfType[ty]]))
+ASSUME EmitSizeof
 Emit == LET r == Eval(e) IN PrintT("CASE " \o ToJson([tokens |-> e, pos |-> pos, v |-> r.v, bad |-> r.bad, big |-> r.big]))
 =============================================================================
